@@ -1,2 +1,102 @@
+"""C20, dilation half: the `connection-hints` dilation message with arbitrary JSON in hint position, through the real
+Manager.received_dilation_message -> rx_HINTS -> use_hints -> parse_hint -> Connector.got_hints/_use_hints/_schedule_connection."""
+from harness.common import Job, check
+from symrun import core, loader
+from symrun.core import eng
+from symrun.values import fresh_enum, sym_or, sym_not, sym_and, SymEnum
+from wormhole import _hints as H
+from wormhole._dilation import manager as MGR, connector as CN
+
+
+class DilationHints(Job):
+    functions = ["_dilation.manager.Manager.received_dilation_message/rx_HINTS/use_hints", "_dilation.connector.Connector.got_hints/_use_hints/_schedule_connection",
+                 "_hints.parse_hint", "_hints.endpoint_from_hint_obj", "_hints.describe_hint_obj"]
+    shadows = ["manager.bytes_to_dict (hands over the symbolic JSON message)", "_hints endpoint classes (recorders)", "_hints.isinstance", "connector.isinstance"]
+
+    def __init__(self, n, shape):
+        self.n, self.shape = n, shape
+        self.name = "dilation_hints_%s%d" % (shape, n)
+        self.bounds = dict(hints=n, shape=shape)
+        self.must_reach = ("nt:handled",)
+
+    def run(self, hints_value, symbolic):
+        from harness import c20
+        from env.dilation import DWorld
+        rec, log = [], c20.LogRec()
+        with DWorld() as w:
+            A, B = w.sides
+            w.start(0)
+            w.start(1)
+            w.deliver_msg(1)          # B's please -> A is CONNECTING
+            assert A.state() == "CONNECTING", A.state()
+            msg = {"type": "connection-hints"}
+            if hints_value is not c20.ABSENT:
+                msg["hints"] = hints_value
+            sh = [(MGR, "bytes_to_dict", lambda pt: msg)] + c20.hint_shadows(rec, log)[1:4] + [(H, "log", log), (MGR, "log", log)]
+            if symbolic:
+                sh += [(H, "isinstance", c20.sym_isinstance), (CN, "isinstance", c20.sym_isinstance), (MGR, "isinstance", c20.sym_isinstance),
+                       (H, "isIPAddress", c20.is_ip(H.isIPAddress)), (H, "isIPv6Address", c20.is_ip(H.isIPv6Address))]
+            with loader.shadow(*sh):
+                A.call("received_dilation_message", A.m.received_dilation_message, b"{}")
+                for _ in range(4):
+                    w.fire_timer()
+            return rec, list(A.errors), list(w.logged) + [m for m in log.m if m and m[0] == "err"]
+
+    def scenario(self):
+        from harness import c20
+        if self.shape == "toplevel":
+            k = eng().choose(5, "toplevel")
+            hv = [c20.ABSENT, 5, None, "str", {"a": 1}][k]
+            eng().inputs["hints"] = "<absent>" if hv is c20.ABSENT else hv
+            hints = []
+        else:
+            hints = c20.fresh_hint_list(self.n, honest=(self.shape == "honest"))
+            hv = hints
+            eng().inputs["hints"] = hints
+        rec, errs, logged = self.run(hv, True)
+        for e in errs:
+            check(False, "%s raised %s" % (e[0], e[1]))
+        for l in logged:
+            check(False, "error logged while handling hints: %s" % (l if isinstance(l, str) else l[1:2],))
+        for h in hints:
+            if not isinstance(h, c20.SymHintDict):
+                continue
+            if c20.was_dialled(rec, h):
+                check(c20.sym_valid_tcp(h, ["direct-tcp-v1"]), "direct hint dialled although it is invalid")
+            elif self.shape == "honest":
+                check(sym_or(sym_not(c20.sym_valid_tcp(h, ["direct-tcp-v1"])), c20.dialled_value(rec, h)), "well-formed direct hint not dialled")
+            for sub in h.subs:
+                lists_with = [lst for lst in h.f["hints"].vals if isinstance(lst, list) and any(x is sub for x in lst)] if isinstance(h.f["hints"], SymEnum) else []
+                in_list = sym_or(*[h.f["hints"] == lst for lst in lists_with]) if lists_with else False
+                vj = sym_and(h.f["type"] == "relay-v1", in_list, c20.sym_valid_tcp(sub, ["direct-tcp-v1"]))
+                if c20.was_dialled(rec, sub):
+                    check(vj, "relay sub-hint dialled although it is invalid")
+                elif self.shape == "honest":
+                    check(sym_or(sym_not(vj), c20.dialled_value(rec, sub)), "well-formed relay sub-hint not dialled")
+        eng().note("nt:handled")
+
+    def replay(self, inp, label):
+        from harness import c20
+        hv = inp["hints"]
+        if hv == "<absent>":
+            hv = c20.ABSENT
+        rec, errs, logged = self.run(hv, False)
+        if errs:
+            return "connection-hints %r: %s raised %s: %s" % (inp["hints"], errs[0][0], errs[0][1], errs[0][2])
+        if logged:
+            return "connection-hints %r: error logged %r" % (inp["hints"], logged[0])
+        if isinstance(hv, list):
+            got = set((repr(e.host), repr(e.port)) for e in rec)
+            exp = set((repr(h), repr(p)) for h, p in c20.expected_targets(hv))
+            if not got <= exp:
+                return "connection-hints %r: dialled %r, valid hints are only %r" % (hv, sorted(got), sorted(exp))
+            if self.shape == "honest" and got != exp:
+                return "well-formed connection-hints %r: dialled %r, expected %r" % (hv, sorted(got), sorted(exp))
+        return None
+
+
 def jobs(tier):
-    return []
+    J = [DilationHints(0, "toplevel"), DilationHints(1, "any"), DilationHints(2, "any"), DilationHints(2, "honest")]
+    if tier == "thorough":
+        J += [DilationHints(3, "any"), DilationHints(3, "honest")]
+    return J
